@@ -74,6 +74,12 @@ def _record(chk, name, res_list, key_prefix):
 
 def run(chk):
     import peptacular  # noqa
+    import time as _t
+    _t0 = [_t.time()]
+
+    def phase(name):
+        chk.count('wall_s_' + name, round(_t.time() - _t0[0], 1))
+        _t0[0] = _t.time()
     tier = chk.tier
     procs = int(os.environ.get('VERIF_PROCS', '0') or 0) or min(12, os.cpu_count() or 1)
     # ------------------------------------------------------------------ translator + Lean
@@ -81,7 +87,9 @@ def run(chk):
     info = T.write_generated()
     if info['changed']:
         chk.generated_changed.append('PeptVerif/Generated/Effects.lean')
+    phase('translate')
     chk.lean_build(['PeptVerif.Props.C08'], DRV)
+    phase('lean_build_audit')
     chk.trusted += [
         'translator harness/translate_effects.py: classification of Python statements into effect-IR statements (mutator method '
         'names, deep/shallow copy recognisers, alias through attribute/subscript/iteration, call resolution by name inside the '
@@ -96,6 +104,7 @@ def run(chk):
     chk.notes.append('declared outside: ' + json.dumps(D.DECLARED_OUTSIDE))
 
     st = _setup_state(chk, 4 if tier == 'quick' else 8)
+    phase('state')
     chk.count('shapes', len(st.bases))
     chk.count('specs', len(st.specs))
     chk.count('specs_declared_editor', sum(1 for s in st.specs if s.editor))
@@ -140,11 +149,13 @@ def run(chk):
         for api, ps in r['observed'].items():
             observed.setdefault(api, set()).update(ps)
     _record(chk, 'single_call', res, 'single')
+    phase('single')
 
     # ------------------------------------------------------------------ history independence
     pair_shapes = list(range(len(st.bases)))
     res = _pool_map(D.task_pairs, pair_shapes, procs)
     _record(chk, 'pairs_exhaustive', res, 'pairs')
+    phase('pairs')
     chk.exhaustive = True
     ntrip = 4000 if tier == 'quick' else 200000
     if chk.broken():
@@ -152,6 +163,7 @@ def run(chk):
     chunks = max(1, procs)
     res = _pool_map(D.task_triples, [(chk.seed * 1000 + i, ntrip // chunks + 1) for i in range(chunks)], procs)
     _record(chk, 'triples_random', res, 'triples')
+    phase('triples')
 
     def o_globals(_):
         if D.db_stamp_full() != full0:
@@ -163,6 +175,7 @@ def run(chk):
 
     # ------------------------------------------------------------------ static analysis vs observation
     _static_compare(chk, st, observed, info)
+    phase('static_compare')
 
     chk.rule = ('shapes: 8 hand-written ProForma strings (labile+terminal+charge, static+isotope+adducts, numeric, intervals+unknown, '
                 'ambiguous interval, plain, labile only, terminals only) + seeded random annotations with every kind; every API '
